@@ -27,14 +27,16 @@ META = dict(
     property="C50",
     level="exploration",
     technique="harness-owned scheduler over the real lock()/unlock() with symlink/readlink/kill/rmlink doubles (one primitive call = one atomic step); complete schedule enumeration for 2 processes, Hypothesis programs/crash points/schedules for 3-4",
-    level_text="For every listed 2-process configuration (program pair x initial stale lock x optional crash point) ALL interleavings of the first D primitive calls are enumerated (D=14 quick / 20 thorough; beyond D the lowest live pid runs on), which is the complete schedule space for most configurations (reported per run as complete_configs of configs); 3 and 4 processes with random programs, crash points and schedules are sampled with Hypothesis. After every schedule the surviving holder (if any) must be able to unlock and a fresh process must then acquire. Not the TLA+ proof the quantifier mentions: exhaustive only within the stated scopes.",
+    level_text="For every listed 2-process configuration (program pair x initial state x optional crash point x handle provenance) ALL interleavings of the first D primitive calls are enumerated (D=14 quick / 20 thorough; beyond D the lowest live pid runs on), which is the complete schedule space for most configurations (reported per run as complete_configs of configs); 3 and 4 processes with random programs, crash points and schedules are sampled with Hypothesis. After every schedule the surviving holder (if any) must be able to unlock and a fresh process must then acquire. Not the TLA+ proof the quantifier mentions: exhaustive only within the stated scopes.",
     level_note="Trusted: the in-memory model of the four primitives (symlink is atomic and fails with EEXIST, remove is atomic, readlink/kill as POSIX; pids are never reused; only the UNIX code path; no EPERM/EACCES). Liveness is checked as quiescence: at the end of every schedule a solo newcomer acquires within 3 calls.",
     design_ref="§5 C50",
-    rule="case = (programs over L/U/D per process, initial stale lock?, optional crash point per process, schedule = choice among runnable processes at each primitive call). non-trivial = some lock() met an existing link (EEXIST) while another process was live or a stale link existed, or a stale lock was broken; distinct by (configuration, executed process order).",
+    rule="case = (programs per process over L/U/D plus l/u = lock/unlock through the process's second handle and X/x = unlock() called whether or not the process holds; initial state free/stale/held by a live outsider; per process: handles constructed by a dead or live parent before fork, handle inherited with locked=True; optional crash point per process, schedule = choice among runnable processes at each primitive call). non-trivial = some lock() met an existing link (EEXIST) while another process was live or a stale link existed, or a stale lock was broken; distinct by (configuration, executed process order).",
 )
 
 NAME = "/lock/the.lock"
-DEAD_PID = 99
+DEAD_PID = 99          # owner of an initial stale lock
+PARENT_DEAD = 98       # a parent that created a handle, forked and exited
+OUTSIDER = 60          # a live process that runs no program: a parent that stays alive / an initial holder
 FRESH_PID = 900
 MAX_STEPS = 400
 TOCTOU_SIG = "stale-break-removed-unexamined-live-lock"
@@ -65,11 +67,18 @@ class _OsShim:
         return getattr(_real_os, name)
 
 
+class _Pid:
+    def __init__(self, pid):
+        self.pid = pid
+
+
 class _Proc:
-    def __init__(self, pid, program, crash_at):
+    def __init__(self, pid, program, crash_at, creator=None, flag=False):
         self.pid = pid
         self.program = program
         self.crash_at = crash_at
+        self.creator = creator     # None: handles made by this process; "dead"/"live": made by a parent before fork
+        self.flag = flag           # handle 0 was inherited with locked == True
         self.log = []              # outcome of every primitive call made so far
         self.finished = False
         self.dead = False
@@ -80,7 +89,8 @@ class _Proc:
         self.budget = 0
         self.holding = False
         self.in_unlock = False
-        self.lock = None
+        self.locks = None
+        self.locked_via = 0
 
     def live(self):
         """True once this re-execution has gone past what was already seen."""
@@ -112,15 +122,24 @@ class _World:
         p.budget = budget
         p.holding = False
         p.in_unlock = False
-        p.lock = self.lockfile.FilesystemLock(NAME)
+        # the process owns two handles on the path; they may have been
+        # constructed by a parent (another pid) before this process existed
+        self.current = _Pid({None: p.pid, "dead": PARENT_DEAD, "live": OUTSIDER}[p.creator])
+        p.locks = [self.lockfile.FilesystemLock(NAME), self.lockfile.FilesystemLock(NAME)]
+        if p.flag:
+            p.locks[0].locked = True
+        self.current = p
         try:
             for op in (p.program if program is None else program):
-                if op == "L":
+                if op in "Ll":
                     if not p.holding:
-                        self.api_lock(p)
-                elif op == "U":
+                        self.api_lock(p, "Ll".index(op))
+                elif op in "Uu":
                     if p.holding:
-                        self.api_unlock(p)
+                        self.api_unlock(p, "Uu".index(op))
+                elif op in "Xx":
+                    # late / duplicate / mistaken unlock(): called whether or not the process holds
+                    self.api_unlock(p, "Xx".index(op))
                 elif op == "D":
                     self.prim(p, "die")
                 else:
@@ -177,7 +196,7 @@ class _World:
         if kind == "symlink":
             value, name = args
             if name in links:
-                if len(self.alive) > 1 or links[name][0] == str(DEAD_PID):
+                if not self.solo or int(links[name][0]) not in self.alive:
                     self.flags.add("eexist")
                 self.trace.append((p.pid, "symlink", "EEXIST"))
                 raise OSError(errno.EEXIST, "File exists")
@@ -216,11 +235,16 @@ class _World:
                 owner = None
             if not p.in_unlock:
                 self.flags.add("stale-broken" if owner not in self.alive else "live-lock-broken")
-            if owner in self.alive and owner != p.pid and gen != p.last_read_gen:
-                # the link removed is not the one whose owner was examined
-                self.tainted = True
-                self.flags.add("toctou-removed-live-lock")
             self.trace.append((p.pid, "rmlink", value))
+            if owner in self.alive and owner != p.pid:
+                if p.in_unlock:
+                    # unlock() may only ever remove this process's own link
+                    self._failed("unlock-removed-another-live-process-lock",
+                                 f"pid {p.pid}: unlock() removed the link of live pid {owner}", True)
+                elif gen != p.last_read_gen:
+                    # the link removed is not the one whose owner was examined
+                    self.tainted = True
+                    self.flags.add("toctou-removed-live-lock")
             return None
         raise AssertionError(kind)
 
@@ -237,15 +261,17 @@ class _World:
             self.fail = (sig, detail)
         raise _Stop()
 
-    def api_lock(self, p):
+    def api_lock(self, p, h=0):
+        lock = p.locks[h]
         try:
-            r = p.lock.lock()
+            r = lock.lock()
         except OSError as e:
             # the doubles raise only EEXIST/ENOENT/ESRCH, all of which lock() must absorb
             self._failed("lock-raised-OSError-" + errno.errorcode.get(e.errno, str(e.errno)),
                          f"pid {p.pid}: lock() raised {e!r}")
         if r:
             p.holding = True
+            p.locked_via = h
         if not p.live():
             return r
         if r:
@@ -255,27 +281,43 @@ class _World:
                 self._failed("two-holders",
                              f"pid {p.pid} acquired while {others} still hold(s) the lock", True)
             self.holders.append(p.pid)
-            if p.lock.clean is False:
+            if lock.clean is False:
                 self.flags.add("acquired-unclean")
         else:
             self.flags.add("lock-false")
             self.trace.append((p.pid, "lock() -> False"))
         return r
 
-    def api_unlock(self, p):
+    def api_unlock(self, p, h=0):
+        was_holding = p.holding
         p.in_unlock = True
         try:
-            p.lock.unlock()
+            p.locks[h].unlock()
         except (OSError, ValueError) as e:
-            self._failed("holder-cannot-unlock-" + type(e).__name__,
-                         f"pid {p.pid} holds the lock but unlock() raised {e!r}", True)
+            if was_holding:
+                self._failed("holder-cannot-unlock-" + type(e).__name__,
+                             f"pid {p.pid} holds the lock but unlock() raised {e!r}", True)
+            # not the holder: refusing (ValueError, or OSError when there is no link) is the documented outcome
+            if p.live():
+                self.flags.add("non-holder-unlock-refused")
+                self.trace.append((p.pid, f"unlock() refused {type(e).__name__}"))
+            return
         finally:
             p.in_unlock = False
         p.holding = False
         if not p.live():
             return
         self.trace.append((p.pid, "unlock() ok"))
-        self.holders.remove(p.pid)
+        if was_holding:
+            self.holders.remove(p.pid)
+            if h != p.locked_via:
+                self.flags.add("unlock-through-other-handle")
+        else:
+            self.flags.add("non-holder-unlock-returned")
+
+
+def _initial(case):
+    return case.get("initial") or ("stale" if case.get("stale") else "free")
 
 
 def _execute(case):
@@ -286,12 +328,20 @@ def _execute(case):
     programs = case["programs"]
     crash = case.get("crash_at") or [None] * len(programs)
     schedule = case["schedule"]
-    procs = [_Proc(101 + i, programs[i], crash[i]) for i in range(len(programs))]
+    creators = case.get("creators") or [None] * len(programs)
+    hflags = case.get("flags") or [False] * len(programs)
+    procs = [_Proc(101 + i, programs[i], crash[i], creators[i], hflags[i]) for i in range(len(programs))]
     for p in procs:
         w.alive.add(p.pid)
-    if case.get("stale"):
+    w.alive.add(OUTSIDER)
+    initial = _initial(case)
+    if initial == "stale":
         w.links[NAME] = [str(DEAD_PID), w.gen]
         w.gen += 1
+    elif initial == "held":
+        w.links[NAME] = [str(OUTSIDER), w.gen]
+        w.gen += 1
+        w.holders.append(OUTSIDER)
 
     def mk(kind):
         def double(*args):
@@ -343,6 +393,14 @@ def _final_phase(w, procs):
             if w.fail:
                 return
     link = w.links.get(NAME)
+    if OUTSIDER in w.holders:
+        # still held by the live outsider: a newcomer must be refused (api_lock
+        # reports two holders otherwise); nothing to acquire
+        w.flags.add("ends-held-by-outsider")
+        fresh = _Proc(FRESH_PID, "L", None)
+        w.alive.add(FRESH_PID)
+        w.advance(fresh, None)
+        return
     if link is None:
         state = "free"
     elif int(link[0]) in w.alive:
@@ -374,14 +432,21 @@ def run_case(ctx, case):
     ctx.count(f"procs={n}")
     for f in w.flags:
         ctx.count(f)
-    if case.get("stale"):
-        ctx.count("initial-stale-lock")
+    initial = _initial(case)
+    ctx.count("initial-" + initial)
+    if any(case.get("creators") or []):
+        ctx.count("handle-created-by-parent-before-fork")
+    if any(case.get("flags") or []):
+        ctx.count("handle-inherited-with-locked-flag")
+    if any(c in prog for prog in case["programs"] for c in "luXx"):
+        ctx.count("second-handle-or-late-unlock-in-program")
     if w.fail is not None:
         sig, detail = w.fail
         ctx.violation(sig, case, detail + "\ntrace: " + "; ".join(
             " ".join(str(x) for x in t) for t in w.trace[-60:]))
     if "eexist" in w.flags or "stale-broken" in w.flags:
-        ctx.nontrivial((case["programs"], bool(case.get("stale")), case.get("crash_at"), order))
+        ctx.nontrivial((case["programs"], initial, case.get("crash_at"), case.get("creators"),
+                        case.get("flags"), order))
         ctx.count("nontrivial")
         if len(ctx.samples) < 5 and len(order) % 5 == 2 and "stale-broken" in w.flags:
             ctx.sample(case)
@@ -424,6 +489,26 @@ def _configs(ctx):
         for stale in (False, True):
             for k in range(0, 7):
                 out.append(dict(programs=["LU", other], stale=stale, crash_at=[k, None]))
+    # handles and processes are not one-to-one: handles built by a parent before
+    # fork (dead or live parent), a second handle on the path, late/duplicate
+    # unlock() calls, handles inherited with locked == True, a live outside holder
+    def add(programs, initial="free", creators=(None, None), flags=(False, False)):
+        out.append(dict(programs=list(programs), initial=initial, crash_at=[None, None],
+                        creators=list(creators), flags=list(flags)))
+    for other in ("LU", "LLU"):
+        for initial in ("free", "stale"):
+            add(["LU", other], initial, ("dead", None))
+            add(["LU", other], initial, ("live", None))
+            add(["LU", other], initial, ("dead", "dead"))
+        add(["LuX", other])
+        add(["lUx", other])
+        add(["LUX", other])
+        add(["LxU", other])
+        add(["X", other], "free", flags=(True, False))
+        add(["XL", other], "stale", flags=(True, False))
+        add(["X", other], "held", flags=(True, False))
+        add(["LU", other], "held")
+        add(["xLU", other], "held", ("live", None), (True, False))
     return out
 
 
@@ -438,12 +523,15 @@ def _enum_config(ctx, config):
 
 
 def _case_strategy(nprocs):
-    prog = st.text(alphabet="LLLUUD", min_size=1, max_size=5)
+    prog = st.one_of(st.text(alphabet="LLLUUD", min_size=1, max_size=5),
+                     st.text(alphabet="LLLUUDluXx", min_size=1, max_size=5))
     return st.builds(
         dict,
         programs=st.lists(prog, min_size=nprocs, max_size=nprocs),
-        stale=st.booleans(),
+        initial=st.sampled_from(["free", "stale", "stale", "held"]),
         crash_at=st.lists(st.one_of(st.none(), st.integers(0, 9)), min_size=nprocs, max_size=nprocs),
+        creators=st.lists(st.sampled_from([None, None, None, "dead", "live"]), min_size=nprocs, max_size=nprocs),
+        flags=st.lists(st.sampled_from([False, False, False, True]), min_size=nprocs, max_size=nprocs),
         schedule=st.lists(st.integers(0, nprocs - 1), max_size=60),
     )
 
